@@ -38,6 +38,7 @@ func checkC17(c *Ctx) {
 	c17Asserts(c)
 	c17Unpad(c)
 	c17Pad(c)
+	hashFed(c, "G-HASH-fed", []string{"x509", "pkcs12"})
 
 	var fs []*ssa.Function
 	for _, n := range []string{"ber2der", "readObject", "isIndefiniteTermination", "encodeLength", "marshalLongLength", "lengthLength", "ParsePKCS7", "parseSignedData", "parseEnvelopedData", "verifySignature", "unmarshalAttribute", "marshalAttributes", "(*PKCS7).Decrypt", "(*PKCS7).DecryptSM2", "encryptedContentInfo.decrypt", "pad", "unpad", "selectRecipientForCertificate", "getCertFromCertsByIssuerAndSerial", "rawCertificates.Parse", "asn1Structured.EncodeTo", "asn1Primitive.EncodeTo"} {
